@@ -41,8 +41,6 @@ Ties (model function vs arim / numpy / scipy call):
                                           2-D / 3-D transfer functions, 1-D / 2-D delays, timetraces=None / given (in place)
 
 Restrictions (the model is silent or differs there; see the final message of the tie task):
-  * rfft_to_hilbert on a 0-d array is only run with n >= 1: the model answers HIndexError whatever n is, the library raises
-    ValueError("invalid number of data points") for n < 1 (signal.py:361 with h = 1.0: scipy checks n before the axis);
   * echoes outside the window (model: TfOutside) are outside the domain of the property; the library's behaviour there
     (SystemError from the numba prange loop, or the echo silently dropped / wrapped) is recorded, not compared: only the
     model's classification of those inputs is evaluated;
@@ -776,7 +774,7 @@ def run(chk, arim, rng, quick):
     hil_case(xa((3, 2)), 4, -2, "fixed")
     hil_case(xa((2, 3)), 2, -1, "fixed")
     hil_case(xa((2, 3)), 1, 0, "fixed")
-    for sh, n, ax in [((), 4, -1), ((2, 3), 4, 2), ((2, 3), 4, -3), ((2, 2), 4, -1), ((2, 0), 4, -1), ((2, 3), 0, -1), ((2, 3), 4, 0)]:
+    for sh, n, ax in [((), 4, -1), ((), 1, 0), ((), 0, -1), ((), 0, 0), ((), -1, -1), ((), -1, 1), ((), -2, -2), ((2, 3), 4, 2), ((2, 3), 4, -3), ((2, 2), 4, -1), ((2, 0), 4, -1), ((2, 3), 0, -1), ((2, 3), 4, 0)]:
         hil_case(xa(sh) if sh else np.array(1 + 0j), n, ax, "fixed-error")
 
     def rand_array(shape):
@@ -807,8 +805,13 @@ def run(chk, arim, rng, quick):
         absent = (axis == -1 and coin(0.6))
         hil_case(x, n, axis, kind, axis_absent=absent)
     for _ in range(4 * scale):
-        # 0-d input: only n >= 1 (see the restrictions in the docstring)
+        # 0-d input, n >= 1: IndexError (scipy looks the axis up in the empty shape), whatever the axis
         hil_case(np.array(pick([1 + 0j, 2.5, -0.25j])), ri(1, 9), pick([-1, 0, 1, -2]), "0-d")
+    for _ in range(4 * scale):
+        # 0-d input, n < 1: ValueError (scipy checks n before the axis), whatever the axis; default axis too
+        ax0 = pick([-1, -1, 0, 1, -2, 2])
+        hil_case(np.array(pick([1 + 0j, 2.5, -0.25j])), pick([0, 0, -1, -1, -2, -3, -4, -7, -8]), ax0, "0-d:n-not-positive",
+                 axis_absent=(ax0 == -1 and coin(0.5)))
     bad = chk.coq_failing("tie_C11_hil", PREAMBLE, "hcase", [c["lit"] for c in cases], "chk_hil", shard=60)
     report("hil", "rfft_to_hilbert", cases, bad, "model_hil")
     total += len(cases)
